@@ -41,14 +41,14 @@ func firstSig(r *Result) string {
 }
 
 // shrink minimises the choice list while the same violation signature persists.
-func shrink(t *testing.T, prop, tier string, vals []int, sig string, budget int, stepCap int64) ([]int, int) {
+func shrink(t *testing.T, prop, tier string, seed uint64, vals []int, sig string, budget int, stepCap int64) ([]int, int) {
 	runs := 0
 	ok := func(v []int) bool {
 		if runs >= budget {
 			return false
 		}
 		runs++
-		r := RunOneCapped(t, prop, 0, v, tier, false, stepCap)
+		r := RunOneCapped(t, prop, seed, v, tier, false, stepCap)
 		return r.Infra == "" && firstSig(r) == sig
 	}
 	cur := append([]int(nil), vals...)
@@ -105,14 +105,14 @@ func writeReplay(t *testing.T, dir string, res *Result, tier string, doShrink bo
 	orig := len(vals)
 	runs := 0
 	if doShrink {
-		vals, runs = shrink(t, res.Prop, tier, vals, sig, envInt("SIM_SHRINK_BUDGET", 300), res.Steps*2+20000)
+		vals, runs = shrink(t, res.Prop, tier, res.Seed, vals, sig, envInt("SIM_SHRINK_BUDGET", 300), res.Steps*2+20000)
 	}
 	// final run with the full trace; must reproduce
-	fin := RunOne(t, res.Prop, 0, vals, tier, true)
+	fin := RunOne(t, res.Prop, res.Seed, vals, tier, true)
 	if firstSig(fin) != sig {
 		// fall back to the unshrunk list
 		vals = res.ChoiceVals
-		fin = RunOne(t, res.Prop, 0, vals, tier, true)
+		fin = RunOne(t, res.Prop, res.Seed, vals, tier, true)
 	}
 	rf := ReplayFile{Property: res.Prop, Tier: tier, Seed: res.Seed, Signature: sig, Choices: vals,
 		LogHash: fin.LogHash, Steps: fin.Steps, SimMs: fin.SimTimeMs, Original: orig, ShrinkRuns: runs, Sample: fin.Sample}
@@ -227,8 +227,9 @@ func TestSim(t *testing.T) {
 			Replay string `json:"replay,omitempty"`
 		}
 		rec := outRec{Result: res}
-		if sig := firstSig(res); sig != "" && rdir != "" && res.Infra == "" && !knownSig(sig) {
-			rec.Replay = writeReplay(t, rdir, res, tier, !shrunk[sig] && len(shrunk) < 3)
+		if sig := firstSig(res); sig != "" && rdir != "" && res.Infra == "" && !knownSig(sig) && !shrunk[sig] {
+			// one replay file per signature and worker: the first occurrence, minimised
+			rec.Replay = writeReplay(t, rdir, res, tier, len(shrunk) < 4)
 			shrunk[sig] = true
 		}
 		emit(rec)
